@@ -128,6 +128,10 @@ def parse_qual(cx, q):
     if q in INT_TYPES:
         b, s = INT_TYPES[q]
         return CT('int', b, s), ref
+    if q in getattr(cx, 'typedefs', {}):
+        # typedef names that reach the executor as text (template arguments of global-scope raw typedefs)
+        t, _ = parse_qual(cx, cx.typedefs[q])
+        return t, ref
     e = cx.enum_info(q)
     if e is not None:
         return CT('int', 32, e, name=q, enum=True), ref
@@ -199,6 +203,7 @@ class State(object):
         self.log = []         # what has been inserted into output streams: [(stream path, kind, payload, width, fill, flags)]
         self.calls = []       # qualified names of the functions called directly by the function under verification
         self.frames = []      # frame facts of callees: (memory after, memory before, lo, hi): bytes outside [lo, hi) kept
+        self.memdefs = {}     # id of a memory term a callee returned -> MemDef (memory before with one scalar rewritten)
 
     def copy(self):
         s = State()
@@ -211,6 +216,7 @@ class State(object):
         s.log = list(self.log)
         s.calls = list(self.calls)
         s.frames = list(self.frames)
+        s.memdefs = dict(self.memdefs)
         s.ret = self.ret
         s.trace = list(self.trace)
         return s
@@ -260,6 +266,26 @@ class FrameFact(object):
         return z3.ForAll([x], z3.Implies(z3.Or(z3.ULT(x, self.lo), z3.UGE(x, self.hi)),
                                          z3.Select(self.mem1, x) == z3.Select(self.mem0, x)),
                          patterns=[z3.Select(self.mem1, x)])
+
+
+class MemDef(object):
+    """postcondition 'the memory afterwards is the memory before with the n-byte little-endian scalar `value` stored at
+    addr'.  Proved as that equation when the promising function is verified; at call sites the equation is assumed and
+    also remembered, so that a later read at an address a constant distance away from addr is resolved by the executor
+    (read-over-write at syntactically comparable addresses) instead of by the solver."""
+
+    def __init__(self, mem0, mem1, addr, n, of_old):
+        # of_old(v): the scalar stored, as a function of the scalar v that mem0 holds at addr (little-endian load)
+        # n == 0: the memory afterwards is the memory before
+        self.mem0, self.mem1, self.addr, self.n, self.of_old = mem0, mem1, addr, n, of_old
+        old = [z3.Select(mem0, addr + z3.BitVecVal(i, 64)) for i in range(n)]
+        self.value = of_old(old[0] if n == 1 else z3.Concat(*reversed(old))) if n else None
+
+    def formula(self):
+        m = self.mem0
+        for i in range(self.n):
+            m = z3.Store(m, self.addr + z3.BitVecVal(i, 64), z3.Extract(8 * i + 7, 8 * i, self.value))
+        return self.mem1 == m
 
 
 class LoopSpec(object):
@@ -383,7 +409,9 @@ class Cx(object):
     # ----- obligations
     def oblige(self, st, name, formula, kind='assert', line=None):
         full = '%s:%s' % (self.current[0] if self.current else '?', name)
-        self.obligations.append(Obligation(full, kind, formula, st.pc, line))
+        ob = Obligation(full, kind, formula, st.pc, line)
+        ob.frames = list(st.frames)
+        self.obligations.append(ob)
 
     # ----- contracts lookup
     def contract_for(self, fn):
@@ -536,14 +564,57 @@ class Cx(object):
         self.region_ob(st, 'read', addr, n)
         if aligned_check and n > 1:
             self.oblige(st, 'read.aligned%d' % n, (addr & z3.BitVecVal(n - 1, 64)) == 0, 'ub')
-        bs = [z3.Select(st.mem, addr + z3.BitVecVal(i, 64)) for i in range(n)]
+        mem, wrap = st.mem, []
+        while mem.get_id() in st.memdefs:
+            # read over a callee's single-scalar write whose address differs from this one by a constant: the same
+            # scalar -> the value written; disjoint bytes (modulo 2^64, decided on the constant) -> the memory before
+            d = st.memdefs[mem.get_id()]
+            if isinstance(d, FrameFact):
+                # a callee that keeps every byte outside [lo, hi): a read entailed (by the path condition, small solver
+                # query) to lie outside is a read of the memory before the call
+                if self._entails_outside(st, addr, n, d.lo, d.hi):
+                    mem = d.mem0
+                    continue
+                break
+            if d.n == 0:
+                mem = d.mem0
+                continue
+            delta = z3.simplify(addr - d.addr)
+            if not z3.is_bv_value(delta):
+                if self._entails_outside(st, addr, n, d.addr, d.addr + z3.BitVecVal(d.n, 64)):
+                    mem = d.mem0
+                    continue
+                break
+            k = delta.as_signed_long()
+            if k == 0 and n == d.n:
+                wrap.append(d.of_old)       # the scalar written there, in terms of the one the memory before holds
+                mem = d.mem0
+                continue
+            if k >= d.n or k <= -n:
+                mem = d.mem0
+                continue
+            break
+        bs = [z3.Select(mem, addr + z3.BitVecVal(i, 64)) for i in range(n)]
         for fr in st.frames:
             # ground instances of the callees' frame conditions at the bytes read now
             for i in range(n):
                 a = addr + z3.BitVecVal(i, 64)
                 st.assume(z3.Implies(z3.Or(z3.ULT(a, fr.lo), z3.UGE(a, fr.hi)), z3.Select(fr.mem1, a) == z3.Select(fr.mem0, a)))
         t = bs[0] if n == 1 else z3.Concat(*reversed(bs))      # little-endian host
+        for f in reversed(wrap):
+            t = f(t)
         return CInt(t, ct.bits, ct.signed)
+
+    def _entails_outside(self, st, addr, n, lo, hi):
+        """does the path condition entail that the n bytes at addr lie outside [lo, hi) (no wrap-around anywhere)?
+        Only a definite `unsat` of the negation counts; the read stays on the later memory otherwise."""
+        end = addr + z3.BitVecVal(n, 64)
+        f = z3.And(z3.ULE(addr, end), z3.ULE(lo, hi), z3.Or(z3.ULE(end, lo), z3.UGE(addr, hi)))
+        s = z3.Solver()
+        s.set('timeout', 400)
+        s.add(*st.pc)
+        s.add(z3.Not(f))
+        return s.check() == z3.unsat
 
     def write_mem(self, st, addr, ct, v):
         if ct.kind != 'int':
@@ -1498,6 +1569,10 @@ class Cx(object):
             for label, f in c.ensures(self, s0, a0, s, a1, ret):
                 if isinstance(f, FrameFact):
                     s.frames.append(f)      # used through ground instances at the addresses read later (read_mem)
+                    s.memdefs.setdefault(f.mem1.get_id(), f)
+                elif isinstance(f, MemDef):
+                    s.assume(f.formula())
+                    s.memdefs[f.mem1.get_id()] = f
                 else:
                     s.assume(f)
             if c.effect:
@@ -1979,7 +2054,7 @@ def verify_function(cx, fn, contract, timeout_ms=20000):
             if 'this' in env:
                 a1['this'] = env['this']
             for label, f in contract.ensures(cx, s0, a0, s, a1, ret):
-                if isinstance(f, FrameFact):
+                if isinstance(f, (FrameFact, MemDef)):
                     f = f.formula()
                 cx.oblige(s, 'ensures.%s' % label, f, 'post')
                 s.assume(f)         # assert, then assume: later clauses may rely on earlier ones (each is proved)
@@ -2055,6 +2130,29 @@ def discharge(ob, timeout_ms):
     text = s.sexpr()          # before check(): afterwards z3 appends model-converter lines that are not SMT-LIB
     r = s.check()
     ob.backend = 'z3'
+    if r == z3.unknown and z3.is_and(ob.formula) and ob.formula.num_args() > 1:
+        # first a short race on the whole conjunction (most are pure cursor arithmetic, decided at once)
+        c, which = _cvc5_race(text, [(['--solve-bv-as-int=sum'], min(3000, timeout_ms), 'cvc5-intblast'),
+                                     ([], min(3000, timeout_ms), 'cvc5')])
+        if c == 'unsat':
+            ob.verdict, ob.backend, ob.time_s = 'proved', which, time.time() - t0
+            return ob
+    if r == z3.unknown and z3.is_and(ob.formula) and ob.formula.num_args() > 1:
+        # a conjunction: each conjunct on its own through the same portfolio (the conjuncts of a region condition are
+        # typically decided by different back ends; assuming the proved ones for the next slows the integer translation)
+        pc, used = list(ob.pc), set()
+        for c in ob.formula.children():
+            sub = Obligation(ob.name, ob.kind, c, pc, ob.line)
+            sub.frames = getattr(ob, 'frames', None)
+            discharge(sub, timeout_ms)
+            used.add(sub.backend)
+            if sub.verdict != 'proved':
+                ob.verdict, ob.backend, ob.model = sub.verdict, sub.backend, sub.model
+                break
+        else:
+            ob.verdict, ob.backend = 'proved', 'split:' + '+'.join(sorted(used))
+        ob.time_s = time.time() - t0
+        return ob
     if r == z3.unknown:
         # cvc5's exact translation of bit-vectors to integers with mod/div ("int-blasting"): cursor arithmetic with
         # rounding to multiples of 2/4/8 becomes linear integer arithmetic and is usually decided at once
@@ -2067,10 +2165,25 @@ def discharge(ob, timeout_ms):
         if r == z3.unknown:
             s.set('timeout', timeout_ms)
             r = s.check()
-            if r == z3.unknown and c == 'sat':
+            if r == z3.unknown and c == 'sat' and not getattr(ob, 'frames', None):
                 ob.time_s = time.time() - t0
                 ob.verdict, ob.backend, ob.model = 'refuted', 'cvc5', {'note': 'cvc5 reports sat; no model extracted'}
                 return ob
+    if r == z3.sat and getattr(ob, 'frames', None):
+        # callees' frame conditions reach the query only as ground instances at the addresses read; a counter-model may
+        # merely violate an instance that was not generated, so it is confirmed against the quantified conditions
+        # (no definite answer there: undecided, never a refutation)
+        # the frame conditions are array properties (forall x. x < lo or x >= hi -> mem1[x] = mem0[x]); instantiating
+        # them at every index term of the query (and at the region bounds) decides them (Bradley/Manna/Sipma index-set
+        # instantiation), so a model that survives is a genuine counter-model
+        idx = _index_terms(list(ob.pc) + [ob.formula])
+        for fr in ob.frames:
+            for a in list(idx.values()) + [fr.lo - 1, fr.hi]:
+                s.add(z3.Implies(z3.Or(z3.ULT(a, fr.lo), z3.UGE(a, fr.hi)), z3.Select(fr.mem1, a) == z3.Select(fr.mem0, a)))
+        s.set('timeout', timeout_ms)
+        r = s.check()
+        if r == z3.unsat:
+            ob.backend = 'z3+frames'
     ob.time_s = time.time() - t0
     if r == z3.unsat:
         ob.verdict = 'proved'
@@ -2081,6 +2194,25 @@ def discharge(ob, timeout_ms):
     else:
         ob.verdict = 'unknown'
     return ob
+
+
+def _index_terms(formulas):
+    """the terms used as array indices (select / store) in the formulas: {ast id: term}"""
+    out, seen, todo = {}, set(), list(formulas)
+    while todo:
+        t = todo.pop()
+        if t.get_id() in seen:
+            continue
+        seen.add(t.get_id())
+        if z3.is_quantifier(t):
+            continue
+        if z3.is_app(t):
+            k = t.decl().kind()
+            if k in (z3.Z3_OP_SELECT, z3.Z3_OP_STORE):
+                i = t.arg(1)
+                out[i.get_id()] = i
+            todo.extend(t.children())
+    return out
 
 
 def _cvc5_race(text, configs):
